@@ -11,6 +11,9 @@ pub struct Plan {
     pub panic_at: Option<(u32, String)>,
     /// ids that stop at a gate when called
     pub gates: Vec<u32>,
+    /// every callback uses a quarter of a megabyte of stack while it runs (C07: a branch that
+    /// fits the caller's stack comfortably must fit a branch thread's too)
+    pub deep: bool,
 }
 
 impl Plan {
@@ -24,7 +27,7 @@ impl Plan {
         self.gates.contains(&id)
     }
     pub fn to_json(&self) -> serde_json::Value {
-        serde_json::json!({"bad": self.bad, "panic_at": self.panic_at.as_ref().map(|(i, k)| serde_json::json!([i, k])), "gates": self.gates})
+        serde_json::json!({"bad": self.bad, "panic_at": self.panic_at.as_ref().map(|(i, k)| serde_json::json!([i, k])), "gates": self.gates, "deep": self.deep})
     }
     pub fn from_json(v: &serde_json::Value) -> Plan {
         let arr = |k: &str| -> Vec<u32> {
@@ -37,6 +40,7 @@ impl Plan {
             bad: arr("bad"),
             panic_at: v.get("panic_at").and_then(|x| x.as_array()).map(|a| (a[0].as_u64().unwrap() as u32, a[1].as_str().unwrap().to_string())),
             gates: arr("gates"),
+            deep: v.get("deep").and_then(|x| x.as_bool()).unwrap_or(false),
         }
     }
 }
@@ -49,6 +53,23 @@ pub fn set(p: Plan) {
 
 pub fn is_bad(id: u32) -> bool {
     PLAN.read().unwrap_or_else(|e| e.into_inner()).as_ref().map(|p| p.is_bad(id)).unwrap_or(false)
+}
+
+pub fn is_deep() -> bool {
+    PLAN.read().unwrap_or_else(|e| e.into_inner()).as_ref().map(|p| p.deep).unwrap_or(false)
+}
+
+/// uses about `n` bytes of stack
+#[inline(never)]
+pub fn burn(n: usize) -> u64 {
+    let mut a = [0u8; 4096];
+    a[n % 4096] = 1;
+    std::hint::black_box(&mut a);
+    if n > 4096 {
+        burn(n - 4096) + a[0] as u64
+    } else {
+        a[1] as u64
+    }
 }
 
 pub fn is_gate(id: u32) -> bool {
